@@ -158,6 +158,7 @@ pub fn gen_set(r: &mut Rng, c: SetCfg) -> Vec<TFile> {
             fr.push((name.to_string(), role));
         }
     }
+    let plain_set = r.chance(1, 5);
     let mut files: Vec<TFile> = vec![];
     let mut placed: Vec<(u32, u32)> = vec![]; // (start, len) of every block so far, all files
     let mut next_free: u32 = 0x3000 + r.below(0x800) as u32;
@@ -187,7 +188,7 @@ pub fn gen_set(r: &mut Rng, c: SetCfg) -> Vec<TFile> {
             own.push((orig, worst));
             next_free = next_free.max(orig + worst) + r.below(0x80) as u32;
         }
-        let opts = FileOpts { id: i, blocks, shared: fr, exotic: c.exotic, crlf: r.chance(1, 3), ext_place: r.below(4) as u8, max_blkw: 4, pin_first: false, huge: None, pad_comment: 0 };
+        let opts = FileOpts { id: i, blocks, shared: fr, exotic: c.exotic, crlf: r.chance(1, 3), ext_place: r.below(4) as u8, max_blkw: 4, pin_first: false, huge: None, pad_comment: 0, plain_head: plain_set };
         let mut opts = opts;
         if i == 0 && r.chance(1, 30) {
             // one block of file 0 (the highest one, so that nothing of this file lies behind it) ends with a huge .blkw
@@ -199,7 +200,7 @@ pub fn gen_set(r: &mut Rng, c: SetCfg) -> Vec<TFile> {
                 next_free = next_free.max(end) + r.below(0x80) as u32;
             }
         }
-        if r.chance(1, 40) {
+        if !plain_set && r.chance(1, 40) {
             opts.pad_comment = 65_500 + r.below(600) as usize;
         }
         if i == 0 && opts.huge.is_none() && r.chance(1, 8) {
